@@ -154,7 +154,13 @@ def uctPick (m : Mdl) (cnt nA : Nat) (aN : Nat → Nat) (aV : Nat → Rat) : Nat
 def uctOkGen (m : Mdl) (cnt nA : Nat) (aN : Nat → Nat) (aV : Nat → Rat) (a : Nat) : Bool :=
   match m.uctSlack with
   | none => a == uctPick m cnt nA aN aV
-  | some eps => !(XRat.gt (uctScore m cnt aN aV (uctPick m cnt nA aN aV)) (xadd (uctScore m cnt aN aV a) (.fin eps)))
+  | some eps =>
+    -- the slack only concerns finite scores: on `+inf` / `NaN` (untried actions) the scan is unambiguous
+    match uctScore m cnt aN aV (uctPick m cnt nA aN aV) with
+    | .fin best => (match uctScore m cnt aN aV a with
+                    | .fin sa => decide (best ≤ sa + eps)
+                    | _ => false)
+    | _ => a == uctPick m cnt nA aN aV
 
 def uctOk (m : Mdl) (t : Tree) (p : Path) (a : Nat) : Bool :=
   uctOkGen m (t.nN p + 1) (t.nA p) (t.aN p) (t.aV p) a
